@@ -629,6 +629,9 @@ func handleInputStream(s *Session, handler Handler) (err error) {
 		TokenWriter: w,
 		id:          id,
 	}
+	// The reply to an unanswered IQ goes to the sender as received: read it
+	// before the handler sees (and may change) the start element.
+	_, fromAttr := attr.Get(start.Attr, "from")
 	if err := handler.HandleXMPP(rw, &start); err != nil {
 		if err == io.EOF {
 			// Only the end of the input stream itself may end the session
@@ -641,7 +644,6 @@ func handleInputStream(s *Session, handler Handler) (err error) {
 	iqNeedsResp := typ == string(stanza.GetIQ) || typ == string(stanza.SetIQ)
 	// If the user did not write a response to an IQ, send a default one.
 	if iqOk && iqNeedsResp && !rw.wroteResp {
-		_, fromAttr := attr.Get(start.Attr, "from")
 		var to jid.JID
 		if fromAttr != "" {
 			to, err = jid.Parse(fromAttr)
